@@ -133,6 +133,30 @@ def verify_contract(eng, c, prop, self_cls=None, skip_ids=None):
     return rep
 
 
+def assume_lemmas(eng, run, c):
+    """Lemmas cited by a contract or lemma (`uses_lemmas`): each is proved on its own and enters here as a quantified fact."""
+    for lname in (c.attrs.get("uses_lemmas") or ()):
+        # a lemma proved on its own (same run, same property or another): available here as a quantified fact
+        lc = eng.cs.lemma_classes[lname]
+        lclaim = lc.methods["claim"]
+        lnames = [a_.arg for a_ in lclaim.args.args]
+        lv = {n_: TV(z3.Const(f"lem_{lname}_{n_}", S.Val)) for n_ in lnames}
+        lpre = eng.eval_clause(lc, lc.requires(), lv).truth() if lc.requires() is not None else z3.BoolVal(True)
+        lcl = eng.eval_clause(lc, lclaim, lv).truth()
+        ltr = lc.methods.get("trigger")
+        lbody = z3.Implies(lpre, lcl)
+        lvs = [lv[n_].t for n_ in lnames]
+        try:
+            if ltr is not None:
+                tt = eng.to_tv(eng.eval_clause(lc, ltr, lv))
+                run.assume(z3.ForAll(lvs, lbody, patterns=[tt.truth() if tt.sort == "bool" else tt.val()]))
+            else:
+                run.assume(z3.ForAll(lvs, lbody))
+        except z3.Z3Exception:
+            run.assume(z3.ForAll(lvs, lbody))
+        run.assumptions_used.add(f"lemma {lname} (proved separately by induction, see lemma:{lname})")
+
+
 def one_path(eng, run, c, fi, nested, self_cls, rep):
     node = nested if nested is not None else fi.node
     params = {}
@@ -176,6 +200,7 @@ def one_path(eng, run, c, fi, nested, self_cls, rep):
         run.merge_depth += 0
         pre = eng.eval_clause(c, req, params).truth()
         run.assume(pre)
+    assume_lemmas(eng, run, c)
     if not run.quick_feasible(z3.BoolVal(True)) or not eng.feasible(run.facts, z3.BoolVal(True)):
         rep.status = "error"
         rep.reason = "precondition unsatisfiable (vacuous contract)"
@@ -494,6 +519,7 @@ def verify_lemma(eng, c, prop):
             run.assume(eng.eval_clause(c, req, params).truth())
         if not run.quick_feasible(z3.BoolVal(True)):
             raise Unsupported("precondition unsatisfiable (vacuous lemma)")
+        assume_lemmas(eng, run, c)
         ind = c.attrs.get("induction") or ()
         if isinstance(ind, str):
             ind = (ind,)
